@@ -349,6 +349,35 @@ func checkC10(c *core.Ctx, r *core.Report) {
 	rotateSegment := c.Fn(pkgMetrics, "MetricsSegment.rotateSegment")
 	recoverDp := c.Fn(pkgMetrics, "RecoverWALData")
 	recoverMN := c.Fn(pkgMetrics, "RecoverMNameWALData")
+	// a tabled function that has become a wrapper (a ...WithStats / ...WithOptions variant now holds the body):
+	// the obligations move to the one function of the package it calls that makes the persisting call itself
+	workerOf := func(fn *ssa.Function, persist types.Object) *ssa.Function {
+		if len(callsTo(fn, persist)) > 0 {
+			return fn
+		}
+		var cands []*ssa.Function
+		for _, ci := range core.CallsIn(fn) {
+			if h := ci.Common().StaticCallee(); h != nil && h.Blocks != nil && h.Parent() == nil && core.FnPkgPath(h) == core.FnPkgPath(fn) && len(callsTo(h, persist)) > 0 {
+				dup := false
+				for _, x := range cands {
+					if x == h {
+						dup = true
+					}
+				}
+				if !dup {
+					cands = append(cands, h)
+				}
+			}
+		}
+		if len(cands) == 1 {
+			return cands[0]
+		}
+		return fn
+	}
+	rotateBlock = workerOf(rotateBlock, flushBlock)
+	rotateSegment = workerOf(rotateSegment, flushNames)
+	recoverDp = workerOf(recoverDp, flushBlock)
+	recoverMN = workerOf(recoverMN, flushNames)
 	rules := []rule{
 		{rotateBlock, flushBlock, "flushBlock", sm.mayPred(objs(cleanDp, delDp, deleteWAL)), "datapoint-WAL discard", "the datapoint WAL may be dropped only after the block it protects is on disk"},
 		{rotateSegment, flushNames, "FlushMetricNames", sm.mayPred(objs(cleanMN, delMN)), "metric-name-WAL discard", "the metric-name WAL may be dropped only after the names file is on disk"},
